@@ -194,6 +194,15 @@ impl<K, V> ValueEntry<K, V> {
         self.info.policy_weight()
     }
 
+    #[inline]
+    pub(crate) fn accounted_weight(&self) -> u32 {
+        self.info.accounted_weight()
+    }
+
+    pub(crate) fn set_accounted_weight(&self, size: u32) {
+        self.info.set_accounted_weight(size);
+    }
+
     pub(crate) fn access_order_q_node(&self) -> Option<KeyDeqNodeAo<K>> {
         self.info.access_order_q_node()
     }
